@@ -136,7 +136,58 @@ class Handlers:
         return []
 
 
-PARTS = [Shapes, Handlers, Q12.FreeText]
+class VissReaders:
+    """what gRPC clients wrote is read over the VISS socket (get, subscribe, events): handler-level writes carry
+    client timestamps from the year 2001, the year 10000 and 9e12 s before / after the epoch, values of every type;
+    every VISS request must be answered and nothing may panic.  (Whether the answers are the right ones is C20's
+    subject: model and implementation are not compared here.)"""
+    FAM = 20
+    SHRINK = True
+    CROSS_MAX = 0
+
+    @staticmethod
+    def generate(rng, tier):
+        from .. import viss as VI
+        n = 60 if tier == "quick" else 1500
+        return [("v%d" % i, VI.gen_case(rng, open_mode=(i % 6 == 5))) for i in range(n)]
+
+    @staticmethod
+    def compare(lines, m, i):
+        return True
+
+    @staticmethod
+    def monitor(lines, out):
+        from .. import viss as VI
+        fails = []
+        if not out or out == [[-99]]:
+            return ["C18-crash: the process died or gave no output"]
+        for f in VI.monitor(lines, out):
+            if f.startswith("C20-reply"):
+                fails.append("C18-silent:" + f.split(":", 1)[1])
+            elif f.startswith("panic"):
+                fails.append("C18-panic:" + f.split(":", 1)[1])
+        return fails
+
+    @staticmethod
+    def nontrivial(lines, out):
+        return hash(tuple(map(tuple, lines)))
+
+    @staticmethod
+    def histogram(lines, out):
+        from . import c20
+        return ["viss:" + h for h in c20.histogram(lines, out) if h.startswith("V")]
+
+    @staticmethod
+    def pretty(lines):
+        from .. import viss as VI
+        return VI.pretty(lines)
+
+    @staticmethod
+    def neighbours(lines, rng):
+        return []
+
+
+PARTS = [Shapes, Handlers, Q12.FreeText, VissReaders]
 
 
 def post(tier, seed):
